@@ -135,6 +135,8 @@ pub enum TAct {
     WaitStart(OpId),
     /// Block until the scheduling call of the op has returned
     WaitRet(OpId),
+    /// The consumer changes the back-pressure depth of pipe p's output stream (always followed by a read)
+    SetDepth(usize, usize),
     /// Hand the output stream of pipe p to the run context, so that a thread of a later phase can drop it
     StashStream(usize),
     /// Block until the scheduling call of the op has been invoked (it may still be blocked inside the call)
@@ -368,7 +370,7 @@ fn tact_code(a: &TAct) -> u64 {
     match a {
         TAct::Op(o) => 10_000 + *o as u64, TAct::Join(o) => 20_000 + *o as u64, TAct::DropHeld(o) => 30_000 + *o as u64,
         TAct::Resume(o, b) => 40_000 + *o as u64 * 2 + *b as u64, TAct::HandResumer(o) => 50_000 + *o as u64, TAct::ReleaseMortal => 7, TAct::PanicRelease => 8,
-        TAct::PipeCreate(p) => 60_000 + *p as u64, TAct::Consume(p, n) => 70_000 + (*p as u64) * 100 + (*n as u64 % 97), TAct::DropStream(p) => 80_000 + *p as u64, TAct::Push(p) => 90_000 + *p as u64, TAct::Attempt(k, o) => 95_000 + *k as u64 * 10 + *o as u64, TAct::AttemptJoin(o) => 96_000 + *o as u64, TAct::Stash(o) => 97_000 + *o as u64, TAct::WaitStart(o) => 98_000 + *o as u64, TAct::WaitRet(o) => 98_500 + *o as u64, TAct::WaitInv(o) => 98_600 + *o as u64, TAct::WaitResolved(o) => 98_700 + *o as u64, TAct::StashStream(p) => 98_800 + *p as u64, TAct::Checkpoint => 99_000, TAct::FireStashedWakers => 99_001,
+        TAct::PipeCreate(p) => 60_000 + *p as u64, TAct::Consume(p, n) => 70_000 + (*p as u64) * 100 + (*n as u64 % 97), TAct::DropStream(p) => 80_000 + *p as u64, TAct::Push(p) => 90_000 + *p as u64, TAct::Attempt(k, o) => 95_000 + *k as u64 * 10 + *o as u64, TAct::AttemptJoin(o) => 96_000 + *o as u64, TAct::Stash(o) => 97_000 + *o as u64, TAct::WaitStart(o) => 98_000 + *o as u64, TAct::WaitRet(o) => 98_500 + *o as u64, TAct::WaitInv(o) => 98_600 + *o as u64, TAct::WaitResolved(o) => 98_700 + *o as u64, TAct::StashStream(p) => 98_800 + *p as u64, TAct::SetDepth(p, d) => 98_900 + (*p as u64) * 10 + *d as u64, TAct::Checkpoint => 99_000, TAct::FireStashedWakers => 99_001,
     }
 }
 
